@@ -11,6 +11,8 @@ forgotten, and an obligation `unknown-callee` is recorded as NOT discharged,
 so that nothing unmodelled can pass silently.
 """
 import itertools
+import os
+import sys
 import re
 
 from .values import (UNIT, BoolV, CharV, ClosureV, CollV, EnumV, FnV, INT_RANGES, IterV, NumV,
@@ -141,6 +143,8 @@ class Summaries:
         st = ctx.st
         name = ctx.callee
         self.used['total:' + name] = self.used.get('total:' + name, 0) + 1
+        if self.used['total:' + name] == 1 and os.environ.get('MTSA_DEBUG_TOTAL'):
+            sys.stderr.write('[generic model] %s (in %s)\n' % (name, ctx.fr.func))
         for a in ctx.args:
             if isinstance(a, ClosureV):
                 body = eng.prog.bodies.get(a.func)
@@ -2045,6 +2049,147 @@ class Summaries:
             return fork_opt(ctx, ctx.args[0], lambda s, p: EnumV(rty, {1}, {1: StructV('Err', {'0': e})}),
                             lambda s, p: EnumV(rty, {0}, {0: StructV('Ok', {'0': p})}))
 
+        @reg('std::option::Option::<T>::or_else')
+        def _(ctx):
+            f = ctx.args[1]
+            rty = ctx.ret_ty
+            return fork_opt(ctx, ctx.args[0], lambda s, p: call_closure(ctx, s, f, []), lambda s, p: some(rty, p))
+
+        @reg('std::option::Option::<T>::and')
+        def _(ctx):
+            b = ctx.args[1]
+            rty = ctx.ret_ty
+            return fork_opt(ctx, ctx.args[0], lambda s, p: none(rty), lambda s, p: b)
+
+        @reg('std::option::Option::<T>::xor')
+        def _(ctx):
+            b = ctx.args[1]
+            rty = ctx.ret_ty
+            return fork_opt(ctx, ctx.args[0],
+                            lambda s, p: fork_opt(with_state(ctx, s), b, lambda s2, q: none(rty), lambda s2, q: some(rty, q)),
+                            lambda s, p: fork_opt(with_state(ctx, s), b, lambda s2, q: some(rty, p), lambda s2, q: none(rty)))
+
+        @reg('std::option::Option::<T>::ok_or_else')
+        def _(ctx):
+            rty = ctx.ret_ty
+            f = ctx.args[1]
+            return fork_opt(ctx, ctx.args[0],
+                            lambda s, p: [(s2, EnumV(rty, {1}, {1: StructV('Err', {'0': e})})) for (s2, e) in call_closure(ctx, s, f, [])],
+                            lambda s, p: EnumV(rty, {0}, {0: StructV('Ok', {'0': p})}))
+
+        @reg('std::option::Option::<T>::is_none_or')
+        def _(ctx):
+            f = ctx.args[1]
+            return fork_opt(ctx, ctx.args[0], lambda s, p: BoolV(True), lambda s, p: call_closure(ctx, s, f, [p]))
+
+        @reg('std::option::Option::<T>::inspect')
+        def _(ctx):
+            f = ctx.args[1]
+            rty = ctx.ret_ty
+            return fork_opt(ctx, ctx.args[0], lambda s, p: none(rty),
+                            lambda s, p: [(s2, some(rty, p)) for (s2, _r) in call_closure(ctx, s, f, [mkref(s, p)])])
+
+        # ---- Result combinators (case split on Ok / Err, like the Option ones)
+        def fork_res(ctx, o, f_ok, f_err):
+            o = deref1(ctx, o)
+            _h, targs = split_generic(getattr(o, 'ty', '') or '')
+
+            def pay(tag):
+                p = o.payload.get(tag) if isinstance(o, EnumV) else None
+                v = p.fields.get('0') if p and p.fields else None
+                if v is None:
+                    v = eng.mk_default(ctx.st, targs[tag] if len(targs) > tag else '?')
+                return v
+            if isinstance(o, EnumV) and o.tags == {0}:
+                return _results(ctx.st, f_ok(ctx.st, pay(0)))
+            if isinstance(o, EnumV) and o.tags == {1}:
+                return _results(ctx.st, f_err(ctx.st, pay(1)))
+            s2 = ctx.st.fork()
+            a, b = pay(0), pay(1)
+            if isinstance(o, EnumV) and o.eid is not None:
+                dec = ctx.st.vn.get(('tagof', o.eid))
+                if dec == 0:
+                    return _results(ctx.st, f_ok(ctx.st, a))
+                if dec == 1:
+                    return _results(ctx.st, f_err(ctx.st, b))
+                ctx.st.vn[('tagof', o.eid)] = 0
+                s2.vn[('tagof', o.eid)] = 1
+            return _results(ctx.st, f_ok(ctx.st, a)) + _results(s2, f_err(s2, b))
+
+        def ok_v(rty, v):
+            return EnumV(rty, {0}, {0: StructV('Ok', {'0': v})})
+
+        def err_v(rty, v):
+            return EnumV(rty, {1}, {1: StructV('Err', {'0': v})})
+
+        @reg('std::result::Result::<T, E>::ok')
+        def _(ctx):
+            rty = ctx.ret_ty
+            return fork_res(ctx, ctx.args[0], lambda s, p: some(rty, p), lambda s, e: none(rty))
+
+        @reg('std::result::Result::<T, E>::err')
+        def _(ctx):
+            rty = ctx.ret_ty
+            return fork_res(ctx, ctx.args[0], lambda s, p: none(rty), lambda s, e: some(rty, e))
+
+        @regx(r'^std::result::Result::<T, E>::(is_ok|is_err)$')
+        def _(ctx):
+            want_ok = ctx.callee.endswith('is_ok')
+            return fork_res(ctx, ctx.args[0], lambda s, p: BoolV(want_ok), lambda s, e: BoolV(not want_ok))
+
+        @reg('std::result::Result::<T, E>::map')
+        def _(ctx):
+            rty = ctx.ret_ty
+            f = ctx.args[1]
+            return fork_res(ctx, ctx.args[0], lambda s, p: [(s2, ok_v(rty, r)) for (s2, r) in call_closure(ctx, s, f, [p])], lambda s, e: err_v(rty, e))
+
+        @reg('std::result::Result::<T, E>::map_err')
+        def _(ctx):
+            rty = ctx.ret_ty
+            f = ctx.args[1]
+            return fork_res(ctx, ctx.args[0], lambda s, p: ok_v(rty, p), lambda s, e: [(s2, err_v(rty, r)) for (s2, r) in call_closure(ctx, s, f, [e])])
+
+        @reg('std::result::Result::<T, E>::and_then')
+        def _(ctx):
+            rty = ctx.ret_ty
+            f = ctx.args[1]
+            return fork_res(ctx, ctx.args[0], lambda s, p: call_closure(ctx, s, f, [p]), lambda s, e: err_v(rty, e))
+
+        @reg('std::result::Result::<T, E>::or_else')
+        def _(ctx):
+            rty = ctx.ret_ty
+            f = ctx.args[1]
+            return fork_res(ctx, ctx.args[0], lambda s, p: ok_v(rty, p), lambda s, e: call_closure(ctx, s, f, [e]))
+
+        @reg('std::result::Result::<T, E>::unwrap_or_else')
+        def _(ctx):
+            f = ctx.args[1]
+            return fork_res(ctx, ctx.args[0], lambda s, p: p, lambda s, e: call_closure(ctx, s, f, [e]))
+
+        @reg('std::result::Result::<T, E>::unwrap_or_default')
+        def _(ctx):
+            return fork_res(ctx, ctx.args[0], lambda s, p: p, lambda s, e: default_value(ctx, s, ctx.ret_ty))
+
+        @reg('std::result::Result::<T, E>::map_or')
+        def _(ctx):
+            d, f = ctx.args[1], ctx.args[2]
+            return fork_res(ctx, ctx.args[0], lambda s, p: call_closure(ctx, s, f, [p]), lambda s, e: d)
+
+        @reg('std::result::Result::<T, E>::map_or_else')
+        def _(ctx):
+            fd, f = ctx.args[1], ctx.args[2]
+            return fork_res(ctx, ctx.args[0], lambda s, p: call_closure(ctx, s, f, [p]), lambda s, e: call_closure(ctx, s, fd, [e]))
+
+        @reg('std::result::Result::<T, E>::is_ok_and')
+        def _(ctx):
+            f = ctx.args[1]
+            return fork_res(ctx, ctx.args[0], lambda s, p: call_closure(ctx, s, f, [p]), lambda s, e: BoolV(False))
+
+        @reg('std::result::Result::<T, E>::is_err_and')
+        def _(ctx):
+            f = ctx.args[1]
+            return fork_res(ctx, ctx.args[0], lambda s, p: BoolV(False), lambda s, e: call_closure(ctx, s, f, [e]))
+
         @reg('std::option::Option::<T>::zip')
         def _(ctx):
             rty = ctx.ret_ty
@@ -2307,6 +2452,15 @@ class Summaries:
             if isinstance(a, StrV) and isinstance(b, StrV):
                 if a.known is not None and b.known is not None:
                     return BoolV(a.known == b.known)
+                # the text of a boolean (`flag.to_string() == "true"`): the comparison is the flag itself
+                for x, y in ((a, b), (b, a)):
+                    if x.known is None and y.known is not None and isinstance(x.prov, tuple) and len(x.prov) == 2 and x.prov[0] == 'bool' \
+                            and isinstance(x.prov[1], BoolV):
+                        if y.known == 'true':
+                            return x.prov[1]
+                        if y.known == 'false':
+                            return BoolV(None, ('not', x.prov[1]))
+                        return BoolV(False)
                 # learnt disequalities
                 for x, y in ((a, b), (b, a)):
                     if x.known is None and x.oid is not None and y.known is not None:
@@ -2433,6 +2587,10 @@ class Summaries:
             s = sval(ctx, s)
             if isinstance(cur, StrV) and cur.known is not None and isinstance(s, StrV) and s.known is not None:
                 nv = StrV(cur.known + s.known, prov=('push',))
+            elif isinstance(cur, StrV) and cur.known == '' and isinstance(s, StrV):
+                nv = s                   # appending to the empty string: the appended text itself
+            elif isinstance(s, StrV) and s.known == '' and isinstance(cur, StrV):
+                nv = cur
             else:
                 nv = StrV(None, oid=next(_c), prov=('push_str', cur.key() if isinstance(cur, V) else None, s.key() if isinstance(s, V) else None))
                 ctx.st.vn[('pushdef', nv.oid)] = (cur, s)
@@ -2450,6 +2608,10 @@ class Summaries:
             b = sval(ctx, ctx.args[1])
             if isinstance(a, StrV) and isinstance(b, StrV) and a.known is not None and b.known is not None:
                 return StrV(a.known + b.known)
+            if isinstance(a, StrV) and a.known == '' and isinstance(b, StrV):
+                return b
+            if isinstance(b, StrV) and b.known == '' and isinstance(a, StrV):
+                return a
             return StrV(None, oid=next(_c), prov=('concat', a.key() if isinstance(a, V) else None, b.key() if isinstance(b, V) else None))
 
         @reg('core::str::<impl str>::chars')
